@@ -169,6 +169,56 @@ def fam_pairs(ctx, rng):
             ctx.count('pair.mesh', key=(fk, nm))
             if la != lb:
                 ctx.violation('mesh:%s:count' % nm, '%d %s in 2D, %d in 3D' % (la, nm, lb), dict(desc, member=nm))
+    if kind == 'mesh':
+        # several meshes joined (the mesh itself and moved copies of it): the joined siblings still agree
+        k = rng.randint(2, 4)
+        mvs = [G.rvec2(rng, 10) for _ in range(k - 1)]
+        try:
+            ja = Mesh2D.join_meshes([a] + [a.move(V2(m_)) for m_ in mvs])
+            jb = Mesh3D.join_meshes([b] + [b.move(V3(tuple(m_[0] * pl.x[i] + m_[1] * pl.y[i] for i in range(3)))) for m_ in mvs])
+        except Exception as e:
+            ctx.violation('mesh:join_meshes:raises', '%r' % (e,), desc); ja = None
+        if ja is not None:
+            ctx.count('pair.mesh', key=(fk, 'join_meshes', k))
+            if [tuple(f) for f in ja.faces] != [tuple(f) for f in jb.faces]:
+                ctx.violation('mesh:join_meshes:faces', 'joining %d meshes: the face index lists differ between 2D and 3D' % k, dict(desc, joined=k))
+            else:
+                for name in ('area', 'face_areas', 'face_centroids', 'vertices'):
+                    if not agree(to2(pl, getattr(ja, name)), to2(pl, getattr(jb, name)), scale * 2):
+                        ctx.violation('mesh:join_meshes:%s' % name, 'joining %d meshes: 2D %s vs 3D %s' % (k, short(getattr(ja, name)), short(getattr(jb, name))),
+                                      dict(desc, joined=k)); break
+    if kind == 'polygon':
+        # the face WITH holes next to its 2D loops, after the library derived it from another face (flip / reflect / scale / move / rotate)
+        # and after it answered something else first: its area, perimeter and orientation are those of its own loops read as 2D polygons
+        base = [(v.x, v.y) for v in a.vertices]
+        hs = G.holes_in(rng, base, rng.choice([1, 1, 2]))
+        if hs:
+            emb2 = lambda q: pl.xy_to_xyz(P2(q))
+            fh = Face3D([emb2(q) for q in base], pl, [[emb2(q) for q in h] for h in hs])
+            tname = rng.choice(['flip', 'reflect', 'scale', 'move', 'rotate', 'rotate_xy'])
+            if tname == 'flip': d = fh.flip()
+            elif tname == 'reflect': d = fh.reflect(V3(G.rvec3(rng, 1)).normalize(), P3(G.rpt3(rng, 10)))
+            elif tname == 'scale': d = fh.scale(G.dy(rng.uniform(0.3, 3)), P3(G.rpt3(rng, 10)))
+            elif tname == 'move': d = fh.move(V3(G.rvec3(rng, 10)))
+            elif tname == 'rotate': d = fh.rotate(V3(G.rvec3(rng, 1)), rng.uniform(-3, 3), P3(G.rpt3(rng, 10)))
+            else: d = fh.rotate_xy(rng.uniform(-3, 3), P3(G.rpt3(rng, 10)))
+            first = rng.choice(['centroid', 'is_self_intersecting', 'triangulated_mesh3d', 'boundary_polygon2d', 'hole_polygon2d', None, 'perimeter'])
+            if first:
+                getattr(d, first)
+            dp = d.plane
+            pb = Polygon2D([dp.xyz_to_xy(v) for v in d.boundary]); ph = [Polygon2D([dp.xyz_to_xy(v) for v in h]) for h in d.holes]
+            ea = pb.area - sum(h.area for h in ph); ep = pb.perimeter + sum(h.perimeter for h in ph)
+            ctx.count('pair.polygon', key=(fk, 'holed_face', tname, first))
+            dd = dict(desc, holes=hs, derived_by=tname, read_first=first)
+            if abs(d.area - ea) > 1e-8 * max(1.0, ea):
+                ctx.violation('polygon:holed_face:area', 'after %s (and reading %s) the face reports area %r, its loops as 2D polygons enclose %r' % (tname, first, d.area, ea), dd)
+            elif abs(d.perimeter - ep) > 1e-8 * max(1.0, ep):
+                ctx.violation('polygon:holed_face:perimeter', 'after %s (and reading %s) perimeter %r, loops %r' % (tname, first, d.perimeter, ep), dd)
+            elif d.is_convex and not (pb.is_convex and not ph):
+                ctx.violation('polygon:holed_face:is_convex', 'after %s (and reading %s) a face with holes reports is_convex' % (tname, first), dd)
+            elif d.is_clockwise != pb.is_clockwise:
+                ctx.violation('polygon:holed_face:is_clockwise', 'after %s (and reading %s) is_clockwise %r, its boundary in its own plane %r' % (
+                    tname, first, d.is_clockwise, pb.is_clockwise), dd)
     # both siblings have now answered their properties; the same similarity applied to both must keep them in agreement
     if kind in ('polygon', 'mesh', 'segment', 'polyline'):
         k_ = G.dy(rng.uniform(0.3, 3)); o2 = G.rpt2(rng, 10); mv = G.rvec2(rng, 10)
